@@ -3,7 +3,7 @@
 From Coq Require Import String.
 From Coq Require Import List Strings.Byte NArith ZArith Bool.
 Require Import Bytes Show Tables Codec Norm CleanPath Chain.
-Require Serve Rot Ser ResetLang ResetModel ResetClass Range UriSplit TrailerKeys Rd Chunk HeaderBlock RespFrame Pool Router Bind HzRouter.
+Require Serve Rot Ser ResetLang ResetModel ResetClass Range UriSplit TrailerKeys Rd Chunk HeaderBlock RespFrame Pool Router Bind HzRouter Shutdown.
 Import ListNotations.
 
 Definition arg (args : list bs) (i : nat) : bs := nth i args [].
@@ -58,6 +58,7 @@ Definition entries : list (bs * (list bs -> bs)) := [
   (B "pool_script", fun a => Pool.pool_script a);
   (B "bind_one", fun a => Bind.bind_one a);
   (B "hz_router", fun a => HzRouter.hz_router a);
+  (B "shutdown_script", fun a => Shutdown.shutdown_script a);
   (B "hz_interp", fun a => HzRouter.hz_interp a);
   (B "route_find", fun a => Router.route_find (bs_eqb (arg a 0) (B "1")) (skipn 2 a) (arg a 1));
   (B "header_block_len", fun a => HeaderBlock.show_opt_nat (HeaderBlock.header_block_len (arg a 0)));
